@@ -52,6 +52,8 @@ FAMILIES = {
     "at_word_then_blanks_and_tabs": lambda n: "@article" + " \t" * n + "x\n@a{k}",
     "at_then_word_characters": lambda n: "@" + "a_1" * n + " \t" * (n % 50) + "=",
     "many_at_signs_with_blanks": lambda n: ("@ \t " * n) + "{",
+    # n digits as the bare value of a numeric field / of any field / as a month (int() and str() refuse above 4300 digits)
+    "digits_in_numeric_fields": lambda n: "@a{k, year = " + "1" * n + ", pages = " + "9" * n + ", note = " + "2" * n + ", month = " + "0" * n + "3}",
     "blank_lines": lambda n: "\n" * n,
     "comment_lines": lambda n: "% c\n" * n,
     "lines_in_value": lambda n: "@a{k, t = {" + "x\n" * n + "}}",
